@@ -8,7 +8,10 @@ applied to the two KEXINIT payloads that were actually put on the wire - and, co
 dimension, to the lists as they were configured (SecurityOptions / disabled_algorithms / both):
 a side that advertises another list than the configured one must not thereby change the agreement.
 Per-direction dimension: the raw peer's two directions of a category vary independently.  A subset
-is re-run as full handshakes of two live transports under the scheduler.
+is re-run as full handshakes of two live transports under the scheduler.  Category-interaction
+dimension: what one category agreed on (each name of its universe, AEAD cipher included) crossed with
+every pair of sub-lists of another category - a category without a common algorithm must make the
+negotiation fail whatever the other categories agreed on.
 """
 import itertools
 
@@ -42,7 +45,14 @@ META = {
             "the agreement must be the one the reference computes from the *configured* lists (not only "
             "from the lists found on the wire). Per-direction dimension: the raw peer's client-to-server "
             "and server-to-client lists range independently over every pair of ordered sub-lists (same "
-            "names in another order, subsets, disjoint) for ciphers, MACs and compression, each role.",
+            "names in another order, subsets, disjoint) for ciphers, MACs and compression, each role. "
+            "Category-interaction dimension: for every ordered pair (A, B) of distinct categories, both real sides "
+            "offer exactly one name in A - each name of A's universe in turn, so the agreement in A is every kex "
+            "method / host key type / cipher (CTR, CBC, AEAD) / MAC (classic, EtM) / compression of the universe - "
+            "while B ranges over every pair of ordered sub-lists (incl. empty, disjoint) of its 3-name universe: "
+            "20 x 3 (thorough: up to 4) x 256 real-real cases; the outcome in B (first common name of the client's "
+            "list, both peers agree, IncompatiblePeer exactly when B has no common name) must not depend on what "
+            "was agreed in A.",
     "note": "un-started Transport objects driven single-threaded through _send_kex_init/_parse_kex_init; "
             "live subset runs two real transports under the cooperative scheduler; universes are "
             "3-4 names per category, not the full algorithm tables",
@@ -293,6 +303,9 @@ def case_real_real(case, acc):
     acc.ev(2)
     what = {"mode": "real-real", "client_cfg": ccfg, "server_cfg": scfg, "methods": [cm, sm],
             "server_keys": list(keyset), "server_has_moduli_pack": moduli}
+    if "with" in case:
+        what["interaction"] = {"fixed_category": case["with"][0], "offered_there": ccfg[case["with"][0]],
+                               "varied_category": case["with"][1]}
     replay = {"kind": "real_real", "case": case}
     ok1 = judge_side(acc, "client", ec, K.agreement(tc), tc._verif_disabled, C, Sv, what, replay, tag)
     ok2 = judge_side(acc, "server", es, K.agreement(ts), ts._verif_disabled, C, Sv, what, replay, tag)
@@ -309,6 +322,13 @@ def case_real_real(case, acc):
     cats = [w for c in ccfg for w in WIRE_OF[c]]
     nontrivial(acc, C, Sv, cats)
     acc.count("real_real_pairs")
+    if "with" in case:
+        a_cat, b_cat = case["with"]
+        acc.count("category_interaction_pairs")
+        for w in WIRE_OF[b_cat]:
+            x, y = C.get(w, []), Sv.get(w, [])
+            if x and y and x != y:
+                acc.nt(("with", a_cat, ccfg[a_cat][0], w, tuple(x), tuple(y)))
     if not moduli:
         acc.count("server_without_moduli_pack_pairs")
     acc.count("outcome_" + ("fail" if N.negotiate(C, Sv)[1] else "agree"))
@@ -531,6 +551,21 @@ def gen_cases(tier):
             for cm, sm in methods:
                 cases.append({"k": "rr", "ccfg": {"kex": lc}, "scfg": {"kex": ls}, "cm": cm, "sm": sm,
                               "keys": ("ed25519", "ecdsa-256", "rsa"), "moduli": False})
+    # H. category-interaction dimension: the agreement of category A is fixed to each name of its universe in
+    # turn (both sides offer just that name) while category B ranges over every pair of ordered sub-lists; what A
+    # agreed on (e.g. an AEAD cipher, which makes the MAC unused) must not change how B is negotiated or whether
+    # an empty intersection in B fails the negotiation
+    for a_cat in CONFIG_CATS:
+        for b_cat in CONFIG_CATS:
+            if a_cat == b_cat:
+                continue
+            subs = sublists(universe(b_cat, tier)[:3])
+            for name in universe(a_cat, tier):
+                for lc in subs:
+                    for ls in subs:
+                        cases.append({"k": "rr", "ccfg": {a_cat: [name], b_cat: lc},
+                                      "scfg": {a_cat: [name], b_cat: ls}, "cm": "opts", "sm": "opts",
+                                      "keys": ("ed25519", "ecdsa-256", "rsa"), "with": [a_cat, b_cat]})
     # E. live subset
     live = []
     for lc in [x for x in sublists(NOPACK_KEX[:2]) if x]:
@@ -573,8 +608,12 @@ def main(tier):
         "one evaluation = one real _parse_kex_init call (or one live handshake) compared with the "
         "reference on the KEXINITs actually sent; nontrivial = distinct (wire category, client list, "
         "server list) with both lists non-empty and different (order conflict, partial overlap, "
-        "disjoint, unknown or marker names)",
+        "disjoint, unknown or marker names); category-interaction cases add (fixed category, name agreed "
+        "there) to the tuple",
         ["3-name (quick) / 4-name (thorough) universes per category; other categories at defaults",
+         "category-interaction dimension: two categories configured at a time (one pinned to a single name on "
+         "both sides, the other over all pairs of sub-lists of 3 names), the remaining three at defaults; an AEAD "
+         "cipher makes the agreed MAC unused on the wire, the statement still demands a common MAC",
          "peer of the raw cases is a harness-built KEXINIT; seqno 0 is supplied by the harness",
          "paramiko configures cipher/MAC/compression per transport, not per direction: per-direction "
          "asymmetry is exercised through the raw peer only (per-direction dimension: every pair of "
